@@ -736,6 +736,9 @@ func ParseBMList(bms *ptttype.BM_t) (uids *[ptttype.MAX_BMs]ptttype.UID) {
 	// parse user-ids
 	idxUID := 0
 	for _, each := range userIDs {
+		if idxUID >= ptttype.MAX_BMs { // only the first MAX_BMs moderators are cached (as parseBMlist in pttbbs)
+			break
+		}
 		uid, err := SearchUserRaw(each, nil)
 		if err != nil || !uid.IsValid() {
 			continue
